@@ -171,6 +171,10 @@ def r3(run):
                 continue
             cmp_ = q.comparison(si["cond"])
             if not cmp_:
+                # `match n { 0 => Err(..), n => Ok(TTL::Head(n)) }`: a switch on the (unsigned) value itself, whose `otherwise`
+                # edge is n != 0 and whose other edge is exactly n = 0
+                if fmt(strip(si["cond"])) == fmt(n):
+                    edges += q.edge_triples(b, bb, lambda m: m is True)
                 continue
             rel, l, r = cmp_
             k = q.const_int(r)
